@@ -44,12 +44,12 @@ class _Events(Contract):
 
 
 class Handle(_Events):
-    props = ('C03', 'C09')
+    props = ('C03', 'C08', 'C09', 'C10')
     qualname = 'Ombott._handle'
     max_paths = 3000
     assumptions = ('hooks, routing and the handler are opaque calls that may return or raise anything',
                    'str.encode("latin1") of a WSGI path succeeds; bytes.decode("utf8") raises only UnicodeDecodeError')
-    expected_labels = ('F4.request_and_response_initialised_first', 'H1.before_hooks_then_routing_then_handler',
+    expected_labels = ('F0.environ_bound_to_this_application', 'F4.request_and_response_initialised_first', 'H1.before_hooks_then_routing_then_handler',
                        'H2.after_hooks_exactly_once', 'H3.responses_returned_failures_become_500', 'H3.only_interrupts_escape')
 
     def pre(self, X):
@@ -88,7 +88,15 @@ class Handle(_Events):
             c.errors_written.append(args[1])
             return NONE
         self.result = None
-        self.stubs = {'Request.__init__': req_init, 'Response.__init__': resp_init, 'App.emit': emit, 'App.to_route': to_route,
+        def env_setdefault(X, args, kwargs):
+            # dict.setdefault: stores only when the key is absent - an environ handed over by another application may carry it
+            key = z3.simplify(args[1].t).as_string()
+            if X.choose(2, f'environ already has {key}?') == 1:
+                return VOpaque(X.fresh(PyObj, 'existing'), 'existing')
+            c.envstore[key] = args[2]
+            return args[2]
+        self.stubs = {'Environ.setdefault': env_setdefault,
+                      'Request.__init__': req_init, 'Response.__init__': resp_init, 'App.emit': emit, 'App.to_route': to_route,
                       'App.handler': handler, 'format_exc': lambda X, a, k: X.fresh_str('stacktrace'), 'Errors.write': write}
         self.environ = VObj('Environ', {})
         self.req = VObj('Request', {'path': X.fresh_str('path'), 'method': X.fresh_str('method')})
@@ -136,6 +144,8 @@ class Handle(_Events):
         else:
             f4 = names[:1] == ['request.__init__'] and self.log[0][1] != 'ok'
         X.prove('F4.request_and_response_initialised_first', z3.BoolVal(f4))
+        # F0: whatever environ is served (a fresh one, or one derived from another application's request), request.app is THIS application
+        X.prove('F0.environ_bound_to_this_application', z3.BoolVal(self.envstore.get('ombott.app') is X.env.get('self')))
         # H1 order
         order = [n for n in names if n in ('emit:before_request', 'to_route', 'handler')]
         want = ['emit:before_request', 'to_route', 'handler'][:len(order)]
